@@ -470,8 +470,11 @@ type Machine struct {
 	Closed bool
 	// Relaxed: the root is a crash image: left-over temp/orphan directories and the failures they cause
 	// (rename onto an orphan directory) are expected until the first Cleanup.
-	Relaxed  bool
-	Problems []Problem
+	Relaxed bool
+	// NoRestore: started with snapshot.NoRestore on an existing root: remote snapshots are neither re-mounted
+	// nor are their directories (removed by Close) recreated.
+	NoRestore bool
+	Problems  []Problem
 	// harness-side bookkeeping, learnt from observations only (never from the model)
 	idOf      map[int]int // live snapshot name -> id (from the directory that appeared when it was created)
 	curOp     *Op
@@ -1031,7 +1034,11 @@ func (m *Machine) oracle(o Op, res Res, evs []Event, before map[int]WalkEnt, dir
 	// (also after every synchronous Remove; and always: every live snapshot has its directory)
 	want := []int{}
 	known := true
-	for n := range after {
+	for n, we := range after {
+		if m.NoRestore && we.L.R {
+			known = false
+			continue
+		}
 		id, ok := m.idOf[n]
 		if !ok {
 			known = false
